@@ -131,10 +131,8 @@ static Scalars scalars_of(const ASTNode *n, bool all) {
     STRVECS(XV)
 #undef XV
     // summaries of members that are not loadable (only produced from parsed trees)
-    if (n->double_value != 0.0 || n->quad_value != 0.0L) {
-        char b[96]; std::snprintf(b, sizeof b, "%a/%La", n->double_value, n->quad_value);
-        out.push_back({"double_value", b});
-    }
+    if (all || n->double_value != d.double_value) { char b[64]; std::snprintf(b, sizeof b, "%a", n->double_value); out.push_back({"double_value", b}); }
+    if (n->quad_value != d.quad_value) { char b[64]; std::snprintf(b, sizeof b, "%La", n->quad_value); out.push_back({"quad_value", b}); }
     if (!n->return_types.empty()) {
         std::string s; for (auto t : n->return_types) s += std::to_string((int)t) + ",";
         out.push_back({"return_types", s});
@@ -208,6 +206,7 @@ static bool set_scalar(ASTNode *n, const std::string &f, const std::string &v) {
 #define XV(g) if (f == #g) { n->g = splitv(v); return true; }
     STRVECS(XV)
 #undef XV
+    if (f == "double_value") { n->double_value = std::strtod(v.c_str(), nullptr); return true; }
     return false;   // summary-only member: ignored when loading
 }
 
